@@ -291,8 +291,8 @@ func shGen(args []string) error {
 				for lab.T != "tok" {
 					lab = genItem(r, false)
 				}
-				if bad && r.Intn(8) == 0 {
-					lab.V = ints([]byte("1x"))
+				if bad && r.Intn(6) == 0 {
+					lab.V = ints([]byte([]string{"1x", "", "_l", "a b", "a,b", "caf\u00e9", "a;b=1, c", "a\"b"}[r.Intn(8)]))
 				}
 				pi := shPI{Label: lab.V, Params: []shParam{}}
 				gp := sh.ParameterisedIdentifier{Label: sh.Token(unints(lab.V)), Params: sh.Parameters{}}
@@ -330,6 +330,10 @@ func shGen(args []string) error {
 				pl = append(pl, sh.ParameterisedIdentifier{Label: "a", Params: sh.Parameters{}})
 			}
 			out, err := pl.String()
+			if len(pl) == 1 && r.Intn(2) == 0 {
+				// the other entry point: one identifier serialised on its own (what the signed-exchange signer does)
+				out, err = pl[0].String()
+			}
 			ev := map[string]interface{}{"case": id, "kind": "pl", "v": v, "err": err != nil, "out": ints([]byte(out)), "v2": []int{}, "v2ok": false}
 			if err == nil {
 				if pl2, e2 := sh.ParseParameterisedList(out); e2 == nil {
